@@ -30,6 +30,10 @@ fn targets<T: Float + std::fmt::Debug + num_traits::FloatConst>(thorough: bool) 
         (AnyGT::Rosen2D(Rosenbrock2D { a: f(1.0), b: f(10.0) }), 2, "Rosenbrock2D"),
         (AnyGT::Funnel, 2, "Funnel"),
         (AnyGT::Quartic, 2, "Quartic"),
+        // targets with NaN regions / bounded support (starts inside the support)
+        (AnyGT::LogX, 2, "Gamma(2,1)^2"),
+        (AnyGT::NanPocket, 2, "NanPocket(2)"),
+        (AnyGT::SqrtDom, 1, "SqrtDom(1)"),
     ];
     if thorough {
         v.push((AnyGT::GaussND(GaussND::new(5, 3)), 5, "GaussND(5)"));
@@ -90,8 +94,15 @@ where
     let thorough = ctx.tier.thorough();
     let tg = targets::<T>(thorough);
     let mut bases = vec![];
-    for (ti, (_, d, _)) in tg.iter().enumerate() {
-        for st in starts(*d, thorough) {
+    for (ti, (_, d, tn)) in tg.iter().enumerate() {
+        let sts: Vec<Vec<f64>> = if tn.starts_with("Gamma") || tn.starts_with("SqrtDom") {
+            vec![(0..*d).map(|k| 0.6 + 0.5 * k as f64).collect(), (0..*d).map(|k| 0.05 + 0.02 * k as f64).collect()]
+        } else if tn.starts_with("NanPocket") {
+            vec![(0..*d).map(|k| 1.0 - 1.4 * k as f64).collect(), (0..*d).map(|k| 1.6 + 0.1 * k as f64).collect()]
+        } else {
+            starts(*d, thorough)
+        };
+        for st in sts {
             // (step size, deviation bound): shallow trees fully, deep trees with fewer deviations
             let plan: Vec<(f64, usize)> = if thorough { vec![(1.5, 3), (0.5, 3), (0.1, 2), (0.03, 1), (0.01, 0), (10.0, 2)] } else { vec![(1.5, 2), (0.5, 2), (0.1, 1), (0.02, 0), (10.0, 1)] };
             for (eps, bound) in plan {
@@ -148,6 +159,33 @@ where
             if let Err(m) = r {
                 ctx.violation(Violation::new("C03:panic", format!("NUTSChain::step panicked: {m}"), case));
                 return Ok(rec.decisions);
+            }
+            // history: relocate the chain through its public `position` field, then one more transition
+            // (default draws) from there — it must be Algorithm 6 on the trajectory through the NEW point
+            if prefix.len() <= 1 {
+                let newpos: Vec<f64> = b.start.iter().enumerate().map(|(k, x)| if tname.starts_with("Gamma") || tname.starts_with("SqrtDom") { x * 1.7 + 0.3 } else { -0.8 * x + 0.35 + 0.1 * k as f64 }).collect();
+                chain.position = t1::<B>(&newpos);
+                chain.verif_set_adapt_state(Some(0), Some(T::from(b.eps).unwrap()), Some(T::from(b.eps).unwrap()), Some(T::from(0.0).unwrap()), None, Some(0));
+                let (r2, rec2) = record_with(Script { prefix: vec![], momenta: moms.clone(), f32_scalar: f32b, inject: true, keep: None, max_leaves: 1 << 14 }, || chain.step());
+                ctx.transitions(1);
+                let case2 = json!({"backend": name, "target": tname, "start": b.start, "eps": b.eps, "script": prefix, "then_relocated_to": newpos});
+                match r2 {
+                    Err(m) => ctx.violation(Violation::new("C03:panic", format!("NUTSChain::step panicked after relocating the chain: {m}"), case2)),
+                    Ok(()) => {
+                        let mut ver2 = Verifier::new(&rt, f32b, f32b, &rec2.events, 0);
+                        match ver2.transition() {
+                            Err(f) => ctx.violation(Violation::new("C03:after-relocation", format!("{} ({}) [{} eps={} after assigning position = {:?}]", f.what, f.key, tname, b.eps, newpos), case2)),
+                            Ok(info2) => {
+                                let sb: Vec<u64> = v(&t1::<B>(&newpos)).iter().map(|x| x.to_bits()).collect();
+                                if info2.start.iter().map(|x| x.to_bits()).ne(sb.iter().cloned()) {
+                                    ctx.violation(Violation::new("C03:after-relocation", format!("the transition after relocating the chain starts from {:?}, not from the assigned position {:?}", info2.start, newpos), case2));
+                                } else {
+                                    ctx.outcome("relocate-then-step histories", 1);
+                                }
+                            }
+                        }
+                    }
+                }
             }
             let mut ver = Verifier::new(&rt, f32b, f32b, &rec.events, 0);
             match ver.transition() {
